@@ -103,6 +103,19 @@ def gen_cases(rng, tier):
         h = ['t3', 'd30', 'd31', 't60', 'u30', 'u31', 't20', 'd32', 't3', 'u32', 't100', 'q']
         cases.append({'id': 'c02-chv2act-%d' % k, 'cfg': cfg, 'hist': h, 'sub': 'ksim', 'tags': {'mode': 'chords-v2-action'}})
         k += 1
+    # live reload requested for a file number that does not exist (the parser accepts every number: it cannot know how many files
+    # kanata is started with), with 1-3 files, through the processing loop's own time handling (rsim): an error, never a crash,
+    # and the keyboard keeps working afterwards; lrld / lrld-next / lrld-prev after such a request too
+    k = 0
+    for nfiles in (1, 2, 3):
+        for n in (nfiles + 1, nfiles + 2, 65535):
+            for follow in ('lrld', 'lrld-next', 'lrld-prev'):
+                cfg = '(defsrc a b f12 f11)\n(deflayer base a b (lrld-num %d) %s)' % (n, follow)
+                files = {'p%d' % f: cfg for f in range(1, nfiles)}
+                h = ['t3', 'd88', 't3', 'u88', 't40', 'd30', 't3', 'u30', 't1200', 'd87', 't3', 'u87', 't40', 'd48', 't3', 'u48', 't1200', 'q']
+                cases.append({'id': 'c02-lrldnum-%d' % k, 'cfg': cfg, 'files': files, 'hist': h, 'sub': 'rsim', 'no_compare': True,
+                              'tags': {'mode': 'reload-of-a-missing-file-number', 'files': nfiles}})
+                k += 1
     return cases
 
 
